@@ -29,9 +29,9 @@ ASSUMPTIONS = ["chain ends and input residue names are the generator's ground tr
                "a (residue, atom) pair listed more than once in a .DAT file has the values of its last line (the table is "
                "read top to bottom; dat.rst is silent, appended override blocks rely on it)"]
 MIN = {"quick": {"table_entries": 17000, "lookup_events": 20000, "atoms_checked": 20000, "user_ff_runs": 10,
-                 "runs_ok": 150, "names_history_tables": 25, "pka_route_runs": 10},
+                 "runs_ok": 150, "names_history_tables": 25, "pka_route_runs": 10, "foreign_hetero_atoms_checked": 8},
        "thorough": {"table_entries": 100000, "lookup_events": 800000, "atoms_checked": 800000, "user_ff_runs": 200,
-                    "runs_ok": 5000, "names_history_tables": 1500, "pka_route_runs": 500}}
+                    "runs_ok": 5000, "names_history_tables": 1500, "pka_route_runs": 500, "foreign_hetero_atoms_checked": 300}}
 
 EVENTS = []
 STATE = {"installed": False}
@@ -64,6 +64,9 @@ def install():
 
 def cases(tier, seed):
     out = [{"kind": "table", "ff": ff} for ff in common.FFS]
+    # --ligand complexes that also hold hetero groups neither the force field nor the MOL2 file knows (ions, sulfate)
+    out += [{"kind": "ligcomplex", "seed": seed * 9011 + i, "ff": ["AMBER", "PARSE", "CHARMM"][i % 3]}
+            for i in range(9 if tier == "quick" else 300)]
     nuser = 12 if tier == "quick" else 600
     out += [{"kind": "usertable", "seed": seed * 9001 + i, "base": ["AMBER", "PARSE", "CHARMM", "TYL06"][i % 4]}
             for i in range(nuser)]
@@ -359,8 +362,68 @@ def setup_worker():
     logging.getLogger().setLevel(logging.CRITICAL)
 
 
+def run_ligcomplex(spec, res):
+    """Second clause under --ligand: a hetero atom with no force-field row and no MOL2 entry is left out of the PQR and
+    reported, never written with defaulted parameters (seed C01k wrote them with 0.0000 0.0000)."""
+    import random as _random
+    import numpy as np
+    from ..gen import pdbfmt
+    from .c09 import build_complex
+    rng = _random.Random(spec["seed"])
+    m = build_complex(rng)
+    if m is None:
+        res.note("no parameterisable ligand drawn")
+        return
+    model = ffmap.builtin(spec["ff"])
+    lines = [ln for ln in m["text"].split("\n") if ln and ln.strip() != "END"]
+    first = next(ln for ln in lines if ln.startswith("ATOM"))
+    c0 = np.array([float(first[30:38]), float(first[38:46]), float(first[46:54])])
+    extra = []
+    serial = 9000
+    nres = 0
+    for resn, names in rng.sample([("CA", ["CA"]), ("ZN", ["ZN"]), ("SO4", ["S", "O1", "O2", "O3", "O4"]), ("MG", ["MG"]),
+                                   ("PO4", ["P", "O1", "O2", "O3", "O4"])], rng.randint(1, 3)):
+        if resn in model:
+            continue
+        centre = c0 + np.array([rng.uniform(-6, 6), rng.uniform(30, 40), rng.uniform(-6, 6)])
+        for k, an in enumerate(names):
+            xyz = centre + (np.zeros(3) if k == 0 else 1.5 * np.array([[1, 1, 1], [-1, -1, 1], [-1, 1, -1], [1, -1, -1]][k - 1]) / 3 ** 0.5)
+            serial += 1
+            extra.append(pdbfmt.fmt_atom(pdbfmt.atom(an, resn, "I", 700 + nres, xyz, rec="HETATM", serial=serial)))
+        nres += 1
+    if not extra:
+        return
+    text = "\n".join(lines + extra + ["END"]) + "\n"
+    foreign = {ln[17:20].strip() for ln in extra}
+    opts = [f"--ff={spec['ff']}", "--ligand={dir}/lig.mol2"] + rng.choice([[], ["--noopt"], ["--keep-chain"], ["--whitespace"]])
+    r = pipeline.run(text, opts, extra_files={"lig.mol2": m["lig_text"]}, workname="c01")
+    res.count("ligand_complex_runs")
+    if not r.ok:
+        res.note(f"ligand complex run failed: {type(r.exc).__name__}")
+        return
+    res.count("runs_ok")
+    pq = pipeline.parse_pqr(r.pqr_text, whitespace="--whitespace" in opts)
+    res.nt("ligcomplex", spec["ff"], tuple(sorted(foreign)))
+    res.cell("ligcomplex", spec["ff"])
+    missed_names = {(getattr(a, "res_name", None) or a.residue.name, a.name) for a in (r.missed or [])}
+    for a in pq:
+        if a["resn"] in foreign:
+            res.violate("e2e/no-row-but-written/hetero-beside-ligand", f"{a['resn']}/{a['name']} has neither a force-field "
+                        f"row nor a MOL2 entry but is written: {a['line']!r}", ff=spec["ff"], opts=opts, seed=spec["seed"])
+    for ln in extra:
+        key = (ln[17:20].strip(), ln[12:16].strip())
+        res.count("foreign_hetero_atoms_checked")
+        if key not in missed_names:
+            res.violate("e2e/unparameterised-hetero-not-reported", f"{key} has no parameters and is not in the unassigned "
+                        f"list", ff=spec["ff"], opts=opts, seed=spec["seed"])
+    res.sample = {"kind": "ligcomplex", "ff": spec["ff"], "foreign": sorted(foreign)}
+
+
 def run_case(spec):
     res = Res()
+    if spec["kind"] == "ligcomplex":
+        run_ligcomplex(spec, res)
+        return res
     if spec["kind"] == "namestable":
         run_namestable(spec, res)
     elif spec["kind"] in ("table", "usertable"):
